@@ -272,6 +272,27 @@ def build_corpus(app):
     add('create trait', op='trait_put', v=39, name='CUSTOM_T2')
     add('delete trait', op='trait_del', v=39, name='CUSTOM_T3')
     add('delete allocations', op='alloc_del', v=39, c='c4')
+    # requests that are refused for their own reason: an error on the way must not change that
+    add('post with a stale consumer generation', op='alloc_post', v=39,
+        entries=[s.entry('c3', {'p1': {'VCPU': 1}}, cgen=s.cgen('c3') + 3), s.entry('c1', {'p1': {'VCPU': 1}}, cgen=-1)])
+    add('reshape refused for capacity, new consumer', op='reshape', v=39,
+        invs=[{'u': 'p3', 'gen': g('p3'), 'invs': [{'rc': 'VCPU', 'inv': INV(4)}]}],
+        entries=[s.entry('c1', {'p3': {'VCPU': 400}}, cgen=-1)])
+    add('put inventories dropping a class in use', op='inv_put_all', v=39, u='p3', gen=g('p3'),
+        invs=[{'rc': 'MEMORY_MB', 'inv': INV(64)}])
+    add('put inventories with a stale generation', op='inv_put_all', v=39, u='p3', gen=g('p3') + 5,
+        invs=[{'rc': 'VCPU', 'inv': INV(4)}])
+    add('delete provider in use', op='rp_delete', v=39, u='p3')
+    add('delete class in use', op='rc_del', v=39, name='VCPU')
+    add('put traits naming an unknown trait', op='rp_traits_put', v=39, u='p3', gen=g('p3'), traits=['CUSTOM_T4'])
+    add('create provider with a taken name', op='rp_create', v=39, u='p5', name='p1', parent='')
+    # further successful kinds
+    add('rename provider', op='rp_update', v=39, u='p3', name='p3-renamed', parent='')
+    add('put aggregates removing all', op='agg_put', v=39, u='p3', gen=g('p3'), aggs=[])
+    add('put below 1.28 on an existing consumer', op='alloc_put', v=20,
+        **s.entry('c3', {'p1': {'VCPU': 2}}, project='proj3', user='user2'))
+    add('post below 1.28 (two consumers)', op='alloc_post', v=13,
+        entries=[s.entry('c3', {'p1': {'VCPU': 2}}), s.entry('c2', {'p2': {'DISK_GB': 2}}, cgen=-1)])
     # start-up synchronisation from a full, a partially and a not synchronised database
     items.append({'label': 'sync (fully synchronised)', 'snap': 'fbase', 'req': {'op': 'sync', 'v': 39}})
     from sqlalchemy import text
